@@ -119,6 +119,17 @@ def check_correlations(case):
                 "not min <= mean <= max entrywise", facts)
         if case["draws"] == 1:
             require(np.allclose(mats["min"], mats["max"], atol=1e-12) and np.allclose(mats["min"], mats["cor"], atol=1e-12), "minmax:single-draw", "", facts)
+    if case.get("translate") and case["model"] in ("linear", "dummy") and A.dtype == np.float64 and k >= 2:
+        # the coefficients are computed on standardised columns: moving one column by a large constant (a timestamp, an identifier
+        # offset; 2**27 keeps the dyadic values exact) changes nothing beyond rounding - learnable rows only, as above
+        A2 = A.copy()
+        A2[:, case["translate"] % k] += float(2 ** 27)
+        r2 = call(A2)
+        for name, a2 in zip(names, r2 if isinstance(r2, tuple) else (r2,)):
+            a2 = np.asarray(a2, dtype=np.float64)
+            dd = np.abs(a2 - mats[name])[learnable][:, learnable]
+            require(bool(np.all(dd <= 1e-6)), "translation:" + name,
+                    "adding 2**27 to column %d moves the matrix by %r" % (case["translate"] % k, float(dd.max()) if dd.size else 0.0), facts)
     diag_checked = 0
     if case["model"] == "linear":
         # "a model able to learn the identity": LinearRegression learns x -> x from a training half iff that half is
@@ -155,7 +166,7 @@ def _cor_cases(draw, tier="quick"):
         labels = draw(st.lists(st.integers(0, 20), min_size=5, max_size=5, unique=True))
     return dict(table=table, columns=labels, dtype=dtype, model=draw(st.sampled_from(["linear", "linear", "tree", "dummy", "sticky-warm"])),
                 draws=draw(st.integers(1, 4)) if draw(st.integers(0, 11)) else draw(st.sampled_from([12, 30, 60])), minmax=draw(st.booleans()), seed=draw(st.integers(0, 2**31 - 2)),
-                index=draw(st.sampled_from(["default", "default", "permuted", "repeated", "strings"])),
+                index=draw(st.sampled_from(["default", "default", "permuted", "repeated", "strings"])), translate=draw(st.sampled_from([0, 0, 1, 2, 3])),
                 index_keys=draw(st.lists(st.integers(0, 10**6), min_size=40, max_size=40)),
                 object_columns=draw(st.lists(st.integers(0, 4), min_size=1, max_size=2)) if draw(st.integers(0, 4)) == 0 else [])
 
